@@ -377,12 +377,19 @@ enum Dev {
     AckTruncated,
     Dribble,
     TwoStatuses,
+    /// a frame is announced, fewer body bytes than announced arrive, then nothing (socket stays open)
+    StatusShortThenSilent,
+    ChallengeShortThenSilent,
+    AckShortThenSilent,
+    /// half a length prefix, then nothing
+    HalfPrefixThenSilent,
 }
 
 const DEVS: &[Dev] = &[
     Dev::Conforming, Dev::StatusNok, Dev::StatusNotAllowed, Dev::StatusAlive, Dev::StatusGarbage, Dev::SilentAfterName, Dev::CloseAfterName,
     Dev::ChallengeTruncated, Dev::ChallengeOldFormat, Dev::ChallengeOversized, Dev::SilentAfterStatus, Dev::CloseAfterStatus, Dev::AckBeforeChallenge,
     Dev::WrongDigest, Dev::DigestForOtherChallenge, Dev::DigestOfOwnChallenge, Dev::SilentAfterReply, Dev::CloseAfterReply, Dev::AckTruncated, Dev::Dribble, Dev::TwoStatuses,
+    Dev::StatusShortThenSilent, Dev::ChallengeShortThenSilent, Dev::AckShortThenSilent, Dev::HalfPrefixThenSilent,
 ];
 
 /// Returns the instant the peer went silent (if the script has such a point).
@@ -413,6 +420,14 @@ async fn play(peer: &mut Peer, dev: Dev, silent: std::sync::Arc<std::sync::Mutex
         StatusGarbage => {
             let _ = peer.write_frame2(&[b's', 0xff, 0x00, 0x80]).await;
             return None;
+        }
+        StatusShortThenSilent | HalfPrefixThenSilent => {
+            // "sok" announced as 3 bytes, 2 arrive / only the first byte of the prefix arrives
+            let _ = peer.sock_write(if dev == StatusShortThenSilent { &[0u8, 3, b's', b'o'][..] } else { &[0u8][..] }).await;
+            let t = Instant::now();
+            *silent.lock().unwrap() = Some(t);
+            tokio::time::sleep(Duration::from_secs(20)).await;
+            return Some(t);
         }
         AckBeforeChallenge => {
             let _ = peer.write_frame2(&Peer::status_body("ok")).await;
@@ -446,6 +461,16 @@ async fn play(peer: &mut Peer, dev: Dev, silent: std::sync::Arc<std::sync::Mutex
                 return Some(t);
             }
             CloseAfterStatus => return None,
+            ChallengeShortThenSilent => {
+                let ch = peer.challenge_body();
+                let mut b = (ch.len() as u16).to_be_bytes().to_vec();
+                b.extend_from_slice(&ch[..ch.len() - 3]);
+                let _ = peer.sock_write(&b).await;
+                let t = Instant::now();
+                *silent.lock().unwrap() = Some(t);
+                tokio::time::sleep(Duration::from_secs(20)).await;
+                return Some(t);
+            }
             ChallengeTruncated => {
                 let ch = peer.challenge_body();
                 let _ = peer.write_frame2(&ch[..9]).await;
@@ -486,6 +511,17 @@ async fn play(peer: &mut Peer, dev: Dev, silent: std::sync::Arc<std::sync::Mutex
             Some(t)
         }
         CloseAfterReply => None,
+        AckShortThenSilent => {
+            let d = challenge_digest(&peer.cookie, client_challenge);
+            let ack = Peer::ack_body(&d);
+            let mut b = (ack.len() as u16).to_be_bytes().to_vec();
+            b.extend_from_slice(&ack[..10]);
+            let _ = peer.sock_write(&b).await;
+            let t = Instant::now();
+            *silent.lock().unwrap() = Some(t);
+            tokio::time::sleep(Duration::from_secs(20)).await;
+            Some(t)
+        }
         WrongDigest => {
             let mut d = challenge_digest(&peer.cookie, client_challenge);
             d[0] ^= 1;
